@@ -139,6 +139,7 @@ func fieldID(st *types.Struct, owner string, idx int) int {
 }
 
 func typeKey(t types.Type) string {
+	t = canonType(t)
 	s := types.TypeString(t, func(p *types.Package) string { return p.Name() })
 	return strings.ReplaceAll(s, " ", "")
 }
@@ -399,5 +400,5 @@ func (l layout) zeroOf(s *Sort) *Term {
 func constArray(s *Sort, v *Term) *Term {
 	t := mk("constarr", s, v)
 	t.Name = "(as const " + s.String() + ")"
-	return t
+	return intern(t)
 }
